@@ -246,7 +246,7 @@ class Out:
                 val = helper.uri(val)
             elif 'HASH' == type_:
                 val = self.ser._hash(val)
-            elif hasattr(val, 'cssText'):
+            elif hasattr(type(val), 'cssText'):
                 val = val.cssText
             elif hasattr(val, 'mediaText'):
                 val = val.mediaText
@@ -1032,7 +1032,7 @@ class CSSSerializer:
                 type_, val = item.type, item.value
                 if valuesOnly and type_ == cssutils.css.CSSComment:
                     continue
-                elif hasattr(val, 'cssText'):
+                elif hasattr(type(val), 'cssText'):
                     # RGBColor or CSSValue if a CSSValueList
                     out.append(val.cssText, type_)
                 else:
@@ -1132,7 +1132,7 @@ class CSSSerializer:
 
                 if valuesOnly and type_ == cssutils.css.CSSComment:
                     continue
-                elif hasattr(val, 'cssText'):
+                elif hasattr(type(val), 'cssText'):
                     # RGBColor or CSSValue if a CSSValueList
                     out.append(val.cssText, type_)
                 elif type_ == 'CHAR' and val in '-+*/':
